@@ -117,6 +117,17 @@ fn long_local_universe() -> (Vec<V>, usize) {
     build_universe(&[0], &[vec![1, 0]], &[None, Some(("rc", 1))], &[None], &[None], &locals)
 }
 
+/// releases of every length 1..=20 (and 33, 65), all zero behind the first number or with a non-zero last number: trailing
+/// zeros are padding at every length, a non-zero number counts at every position
+fn release_length_universe() -> (Vec<V>, usize) {
+    let mut releases: Vec<Vec<u32>> = vec![];
+    for len in (1..=20usize).chain([33, 65]) {
+        let mut z = vec![0u32; len]; z[0] = 1; releases.push(z.clone());
+        if len > 1 { z[len - 1] = 1; releases.push(z.clone()); z[len - 1] = 2; releases.push(z); }
+    }
+    build_universe(&[0], &releases, &[None, Some(("rc", 1))], &[None, Some(5)], &[None], &[None])
+}
+
 fn universe(quick: bool) -> (Vec<V>, usize) {
     let epochs = [0u32, 1];
     let releases: Vec<Vec<u32>> = if quick { vec![vec![1], vec![1, 0, 1], vec![1, 1], vec![2]] } else { vec![vec![1], vec![1, 0, 1], vec![1, 1], vec![2], vec![1, 0, 0, 1], vec![0], vec![10]] };
@@ -260,6 +271,8 @@ fn main() {
     let s_pairs = s_pairs.merge(s_bound);
     let (ul, nl_versions) = long_local_universe();
     let s_pairs = s_pairs.merge(check_pairs(&ctx, &ul));
+    let (ur, nr_versions) = release_length_universe();
+    let s_pairs = s_pairs.merge(check_pairs(&ctx, &ur));
     let tri_n = if ctx.quick() { 150 } else { 400 };
     let stride = (u.len() / tri_n).max(1);
     // stride chosen odd relative to 5 spellings so that all spellings occur
@@ -277,12 +290,13 @@ fn main() {
     let all = s_pairs.clone().merge(s_tri).merge(s_mt);
     for (t, e) in REJECTED.lock().unwrap().iter() { ctx.violation("universe_member_rejected", format!("{t:?}"), json!({"kind":"member","text":t}), format!("the real parser rejects this spelling of a valid version: {e}")); }
     let mut cov = Coverage::default();
-    cov.states = (u.len() + ub.len() + ul.len()) as u64;
+    cov.states = (u.len() + ub.len() + ul.len() + ur.len()) as u64;
+    cov.set("release_length_versions", nr_versions as u64);
     cov.transitions = all.get("pairs");
     cov.evaluations = all.get("pairs") + all.get("triples") + all.get("max_tag_sets");
     cov.traces_validated = cov.evaluations;
     cov.distinct_nontrivial = s_pairs.get("want_unequal") + s_pairs.get("same_version_spelling_pairs");
-    cov.rule = format!("{n_versions} abstract versions (epoch x release x pre x post x dev x local field universe), each written in 5 spellings (normal; upper case + long labels + -/_ separators; leading zeros + v; trailing .0.0 release + alternative labels + -N post; explicit epoch + .0 + implicit zero numbers) and parsed by the real parser = {} objects; ALL ordered pairs of objects vs the C11 key, spellings of one version must be ==; a second universe of {nb_versions} versions whose epoch / release / pre / post / dev numbers sit at 0 and 2^32-1 (all ordered pairs of its spellings as well); a third universe of {nl_versions} versions whose local parts are 31..300 characters long and share their prefix; all triples of a {}-element sub-universe; find_max_version_tag on all ordered selections of <=3 of {} objects. non-trivial = pairs that differ under the key or are distinct spellings of one version", u.len(), sub.len(), sub2.len());
+    cov.rule = format!("{n_versions} abstract versions (epoch x release x pre x post x dev x local field universe), each written in 5 spellings (normal; upper case + long labels + -/_ separators; leading zeros + v; trailing .0.0 release + alternative labels + -N post; explicit epoch + .0 + implicit zero numbers) and parsed by the real parser = {} objects; ALL ordered pairs of objects vs the C11 key, spellings of one version must be ==; a second universe of {nb_versions} versions whose epoch / release / pre / post / dev numbers sit at 0 and 2^32-1 (all ordered pairs of its spellings as well); a third universe of {nl_versions} versions whose local parts are 31..300 characters long and share their prefix; a fourth universe of {nr_versions} versions whose release has 1..20, 33 and 65 numbers (all zero behind the first, or with a non-zero last number); all triples of a {}-element sub-universe; find_max_version_tag on all ordered selections of <=3 of {} objects. non-trivial = pairs that differ under the key or are distinct spellings of one version", u.len(), sub.len(), sub2.len());
     cov.exhaustive = true;
     cov.samples = vec![json!({"a": u[7].text, "b": u[u.len()/2+3].text}), json!({"a": u[u.len()-1].text, "b": u[u.len()-4].text}), json!({"a": u[11].text, "b": u[13].text})];
     cov.set("clause_counts", all.to_json());
